@@ -6,7 +6,7 @@ import ast
 from ..astq import ancestors, arg, call_name, calls, dotted, find_calls, guard_atoms, guards, kwarg, norm, provenance, walk_local
 from ..cfg import CFG
 from ..core import Ctx
-from ..pred import Unknown, eval_expr
+from ..pred import _Raised, Unknown, eval_expr
 from .common import arm_for, explain, find_in, has_call, has_stmt
 
 M = "protocol.ws_stream"
@@ -63,41 +63,76 @@ def run(ctx: Ctx) -> None:
     closed = any(isinstance(s, ast.Assign) and dotted(s.targets[0]) == "self.closed" and norm(s.value) == "True" for s in h.body)
     ctx.check("C10.R2", w, "overflow is latched (buffer stays over the limit, or the stream is closed)", (not cleared) or closed, "clearing the buffer in the overflow handler lets frames from later reads be delivered after 1009 was sent (including the tail of the oversized message)", h)
 
-    # R3
+    # R3 / R4: the reassembly buffer is interpreted on small scenarios (the evaluator's own
+    # io.StringIO / io.BytesIO stand for the library objects)
+    import io as _io
+
+    from ..pred import Rec, eval_function as _evf
+
     ex = repo.func(M, "WebsocketBuffer.extend")
     we = f"{M}:WebsocketBuffer.extend"
-    rs = [n for n in walk_local(ex) if isinstance(n, ast.Raise)]
-    ok = len(rs) == 1 and "FrameTooLargeError" in norm(rs[0])
-    detail = ""
-    if ok:
-        for ln, mx, want in ((9, 10, False), (10, 10, False), (11, 10, True), (0, 0, False), (1, 0, True)):
-            try:
-                got = all(bool(eval_expr(t, {"self.length": ln, "self.max_length": mx})) == p for t, p in guards(rs[0]))
-            except Unknown:
-                got = None
-            if got != want:
-                ok = False
-                detail = f"length={ln} max={mx}: raises={got}, expected {want}"
-    ctx.check("C10.R3", we, "raise iff length > max_length", ok, detail or "limit comparison missing", rs[0] if rs else ex)
-    acc = [n for n in walk_local(ex) if isinstance(n, ast.AugAssign) and dotted(n.target) == "self.length"]
-    ok = len(acc) == 1 and isinstance(acc[0].op, ast.Add) and norm(acc[0].value) == "self.value.write(event.data)" and rs and acc[0].lineno < rs[0].lineno and not guard_atoms(acc[0])
-    ctx.check("C10.R3", we, "length += value.write(event.data), before the comparison", ok, "every fragment's size must be added before the limit test", acc[0] if acc else ex)
-    cl = repo.func(M, "WebsocketBuffer.clear")
-    body = sorted(norm(s) for s in cl.body)
-    ctx.check("C10.R3", f"{M}:WebsocketBuffer.clear", "clear resets value and length", body == ["self.length = 0", "self.value = None"], f"clear(): {body}", cl)
-
-    # R4
-    mk = [n for n in walk_local(ex) if isinstance(n, ast.Assign) and dotted(n.targets[0]) == "self.value"]
-    kinds = {norm(n.value): guard_atoms(n) for n in mk}
-    ok = set(kinds) == {"StringIO()", "BytesIO()"} and ("isinstance(event, TextMessage)", True) in kinds["StringIO()"] and ("isinstance(event, TextMessage)", False) in kinds["BytesIO()"] and all(("self.value is None", True) in v for v in kinds.values())
-    ctx.check("C10.R4", we, "StringIO iff TextMessage else BytesIO, created once per message", ok, f"buffer creation: { {k: sorted(v) for k, v in kinds.items()} }", ex)
+    bi = repo.func(M, "WebsocketBuffer.__init__")
     tm = repo.func(M, "WebsocketBuffer.to_message")
-    rets = [n for n in walk_local(tm) if isinstance(n, ast.Return)]
-    ok = len(rets) == 1 and isinstance(rets[0].value, ast.Dict)
-    if ok:
-        d = {norm(k): norm(v) for k, v in zip(rets[0].value.keys, rets[0].value.values)}
-        ok = d.get("'type'") == "'websocket.receive'" and d.get("'bytes'") == "self.value.getvalue() if isinstance(self.value, BytesIO) else None" and d.get("'text'") == "self.value.getvalue() if isinstance(self.value, StringIO) else None"
-    ctx.check("C10.R4", f"{M}:WebsocketBuffer.to_message", "text for StringIO, bytes for BytesIO, the other None", ok, "message type must be preserved", tm)
+    cl = repo.func(M, "WebsocketBuffer.clear")
+
+    def _isinst(obj, cls):
+        names = cls if isinstance(cls, tuple) else (cls,)
+        for c_ in names:
+            if isinstance(c_, str):
+                if isinstance(obj, Rec) and (obj.fields.get("kind") == c_ or c_ == "Message"):
+                    return True
+            elif isinstance(obj, c_):
+                return True
+        return False
+
+    base_env = {"call:isinstance": _isinst, "call:StringIO": _io.StringIO, "call:BytesIO": _io.BytesIO, "StringIO": _io.StringIO, "BytesIO": _io.BytesIO, "TextMessage": "TextMessage", "BytesMessage": "BytesMessage", "Message": "Message"}
+    T = lambda d_: Rec(kind="TextMessage", data=d_)  # noqa: E731
+    B = lambda d_: Rec(kind="BytesMessage", data=d_)  # noqa: E731
+    scenarios = [
+        ("two text fragments are concatenated and delivered as text", 5, [("extend", T("ab")), ("extend", T("c")), ("to_message", {"type": "websocket.receive", "bytes": None, "text": "abc"}), ("clear", None), ("state", (None, 0))]),
+        ("binary stays binary", 5, [("extend", B(b"xy")), ("to_message", {"type": "websocket.receive", "bytes": b"xy", "text": None})]),
+        ("a message of exactly max size is accepted, one more unit is refused", 2, [("extend", T("ab")), ("extend!", T("c"))]),
+        ("the limit counts characters for text (3 non-ASCII characters within a limit of 3)", 3, [("extend", T("\xe4\xf6\xfc")), ("to_message", {"type": "websocket.receive", "bytes": None, "text": "\xe4\xf6\xfc"})]),
+        ("the limit counts bytes for binary", 3, [("extend", B(b"abc")), ("extend!", B(b"d"))]),
+        ("an empty message is still a message of its type", 0, [("extend", T("")), ("to_message", {"type": "websocket.receive", "bytes": None, "text": ""})]),
+        ("the type is chosen per message (text, clear, binary)", 9, [("extend", T("a")), ("clear", None), ("extend", B(b"b")), ("to_message", {"type": "websocket.receive", "bytes": b"b", "text": None})]),
+        ("sizes accumulate over fragments", 3, [("extend", B(b"ab")), ("extend!", B(b"cd"))]),
+    ]
+    for title, mx, steps in scenarios:
+        why = ""
+        try:
+            st_ = _evf(bi, {**base_env, bi.args.args[1].arg: mx}, want_env=True)
+            state = {k_: v_ for k_, v_ in st_.items() if k_.startswith("self.")}
+            for op, arg_ in steps:
+                if op in ("extend", "extend!"):
+                    try:
+                        out_ = _evf(ex, {**base_env, **state, ex.args.args[1].arg: arg_}, want_env=True)
+                        raised = False
+                    except _Raised as r_:
+                        raised = "FrameTooLargeError" in str(r_)
+                        if not raised:
+                            raise
+                        out_ = {}
+                    if raised != (op == "extend!"):
+                        why = f"extend({arg_}) {'raised' if raised else 'did not raise'} FrameTooLargeError"
+                        break
+                    state.update({k_: v_ for k_, v_ in out_.items() if k_.startswith("self.")})
+                elif op == "to_message":
+                    got_ = _evf(tm, {**base_env, **state})
+                    if got_ != arg_:
+                        why = f"to_message() gives {got_}, expected {arg_}"
+                        break
+                elif op == "clear":
+                    out_ = _evf(cl, {**base_env, **state}, want_env=True)
+                    state.update({k_: v_ for k_, v_ in out_.items() if k_.startswith("self.")})
+                elif op == "state":
+                    if (state.get("self.value"), state.get("self.length")) != arg_:
+                        why = f"after clear(): value={state.get('self.value')!r} length={state.get('self.length')!r}"
+                        break
+        except Exception as error:
+            why = f"not evaluable: {type(error).__name__}: {error}"
+        rid = "C10.R3" if "limit" in title or "max size" in title or "accumulate" in title else "C10.R4"
+        ctx.check(rid, f"{M}:WebsocketBuffer", title, not why, why, ex)
     wsi = repo.func(M, "WSStream.__init__")
     ok = any(isinstance(n, ast.Assign) and dotted(n.targets[0]) == "self.buffer" and call_name(n.value) == "WebsocketBuffer" for n in walk_local(wsi) if isinstance(getattr(n, "value", None), ast.Call))
     ctx.check("C10.R4", f"{M}:WSStream.__init__", "one WebsocketBuffer per stream", ok, "each stream needs its own reassembly buffer", wsi)
